@@ -372,6 +372,10 @@ Fixpoint action_loop (a : action) (sa : Z) (st : option Z * Z) (os : list (Z * l
 Definition action_events (a : action) (stages : list stage) (parts : list (list Z)) : list event :=
   action_loop a (Z.of_nat (length stages) + 1) (None, 0) (indexed 0 (map (sem_pipe stages) parts)).
 
+(* everything a full pass over all partitions does, in order: creating the task of a partition, then its chain *)
+Definition global_trace (stages : list stage) (parts : list (list Z)) : trace :=
+  concat (map (fun t => map Ev (created (snd t)) ++ body (snd t)) (tasks stages parts)).
+
 (* the partition an event belongs to (index-less mapPartitions calls are counted, the count is the position) *)
 Definition epart (e : event) : Z :=
   match e with (_, p, j, _) => if p =? -1 then j else p end.
